@@ -19,3 +19,7 @@ import PPProofs.Props.C04Iter
 #print axioms PP.Parse.growLoop_enhFix
 #print axioms PP.Parse.tailOf_strict
 #print axioms PP.Parse.parse_lit1_strict
+#print axioms PP.Parse.parseLR_direct_eq_parse_iterative_partial
+#print axioms PP.Parse.parse_I_step
+#print axioms PP.Parse.manyLoop_eq_iterLoop
+#print axioms PP.Parse.exG2_end_differs
